@@ -213,20 +213,24 @@ def hostile_watch(ek: int, w1: int, w2: int, w3: int, where: int) -> str:
     return _check_table(s, {"z": 1}, None)
 
 
-FW = ["b * 3.5", "a + 1000", "a * 7.25", "n * 100000", "n + 99999", "s * 3", "s + 'zz'", "[a]", "(a, b)", "{'k': a}", "a", "n"]
+FW = ["b * 3.5", "a + 1000", "a * 7.25", "n * 100000", "n + 99999", "s * 3", "s + 'zz'", "[a]", "(a, b)", "{'k': a}", "a", "n",
+      # containers whose ELEMENTS are fresh temporaries, and sequences that produce their elements on demand
+      "[n * 1000, n * 1001]", "(a * 3, b * 3)", "list(r0)[1:]", "r0"]
+# built at import, outside the engine (under tracing `range(...)` yields CrossHair's own range model, not a range)
+_R0 = range(1000, 1004)
 
 
 def fresh_watches(w1: int, w2: int, w3: int, k: int) -> str:
     """
     Watches whose values are fresh temporaries (the result object dies as soon as the agent drops it): each watch result
     is still the value of ITS expression in the frame - two different objects never end up behind one id.
-    PRE: 0 <= w1 <= 11 and 0 <= w2 <= 11 and 0 <= w3 <= 11 and 2 <= k <= 3
+    PRE: 0 <= w1 <= 15 and 0 <= w2 <= 15 and 0 <= w3 <= 15 and 2 <= k <= 3
     PRE: k == 3 or w3 == 0
     POST: _ == ""
     """
     world.begin_path()
     w1, w2, w3, k = [world.realize(x) for x in (w1, w2, w3, k)]
-    f_locals = {"a": 4.0, "b": 2.5, "n": 7, "s": "ab"}
+    f_locals = {"a": 4.0, "b": 2.5, "n": 7, "s": "ab", "r0": _R0}
     watches = [FW[w1], FW[w2], FW[w3]][:k]
     snaps = _snapshot(f_locals, 1000, watches)
     world.reached()
@@ -240,8 +244,19 @@ def fresh_watches(w1: int, w2: int, w3: int, k: int) -> str:
         if x.result is None or x.result.vid not in s.var_lookup:
             return "C07:dangling-root-reference(frame-or-watch)"
         v = s.var_lookup[x.result.vid]
-        if v.type != type(val).__name__ or v.value != reader.text_of(val):
+        texts = [reader.text_of(val)] + (["Size: %d" % len(val)] if isinstance(val, range) else [])
+        if v.type != type(val).__name__ or v.value not in texts:
             return "C07:watch-result-is-another-object's-entry(id reused)"
+        if isinstance(val, (list, tuple, range)):
+            # whichever elements the agent lists for a sequence (it need not list any for kinds it does not know), each
+            # listed child is named by an index and its entry shows THAT element - by value: the elements of a range (or
+            # of a freshly built list) are temporaries, there is no lasting identity to compare
+            for c in v.children:
+                if not str(c.name).isdigit() or int(c.name) >= len(val) or c.vid not in s.var_lookup:
+                    return "C07:watch-child-not-an-element"
+                cv, el = s.var_lookup[c.vid], val[int(c.name)]
+                if cv.type != type(el).__name__ or cv.value != reader.text_of(el):
+                    return "C07:watch-child-shows-another-element's-value(id reused)"
     return _check_table(s, f_locals, None)
 
 
@@ -285,9 +300,9 @@ CONDITIONS = [
          twins=["reach"], timeout={"quick": 420, "thorough": 900},
          bounds="a list holding an object whose __repr__ raises one of 5 exception classes (2 Exception, 3 BaseException-only), as module global (watch-only) or local; "
                 "all 6^2 pairs (thorough 6^3 triples) of watches over it and its sub-objects"),
-    dict(fn="fresh_watches", cubes={"quick": ["k == 2 and w1 %s" % a for a in ("<= 3", "in (4, 5, 6, 7)", ">= 8")] + ["k == 3 and w1 == 0 and w2 == 1", "k == 3 and w1 == 3 and w2 == 4"],
-                                    "thorough": ["k == 3 and w1 == %d and w2 == %d" % (a, b) for a in range(12) for b in range(12)]},
-         twins=["reach", "mutant:no_keep_alive@k == 2 and w1 <= 3"], bounds="all pairs (thorough: triples) of 12 watch expressions producing fresh floats / ints / strings / containers over 4 locals"),
+    dict(fn="fresh_watches", cubes={"quick": ["k == 2 and w1 %s" % a for a in ("<= 3", "in (4, 5, 6, 7)", "in (8, 9, 10, 11)", ">= 12")] + ["k == 3 and w1 == 14 and w2 == 15", "k == 3 and w1 == 0 and w2 == 1", "k == 3 and w1 == 3 and w2 == 4"],
+                                    "thorough": ["k == 3 and w1 == %d and w2 == %d" % (a, b) for a in range(16) for b in (0, 3, 5, 7, 9, 12, 14, 15)]},
+         twins=["reach", "mutant:no_keep_alive@k == 2 and w1 <= 3"], bounds="all pairs (thorough: triples) of 16 watch expressions producing fresh floats / ints / strings / containers of temporaries / ranges over 5 locals"),
     dict(fn="self_ref", cubes=["kind == %d" % k for k in range(3)], twins=["reach"],
          bounds="locals containing the locals mapping directly / inside a list / reached by the watch 'locals()'; symbolic max_variables"),
 ]
